@@ -63,11 +63,14 @@ func mentions(v ssa.Value, pred func(ssa.Value) bool, depth int, seen map[ssa.Va
 	// a straight-line accessor of the module (func (r *Reader) Len() int { return len(r.buf) }):
 	// its result is computed from what its single return statement mentions
 	if call, ok := v.(*ssa.Call); ok {
-		if g := call.Call.StaticCallee(); g != nil && len(g.Blocks) == 1 && inModule(g) {
-			if ret, ok := g.Blocks[0].Instrs[len(g.Blocks[0].Instrs)-1].(*ssa.Return); ok {
-				for _, r := range ret.Results {
-					if mentions(r, pred, depth-1, seen) {
-						return true
+		if g := call.Call.StaticCallee(); g != nil && len(g.Blocks) >= 1 && len(g.Blocks) <= 6 && inModule(g) {
+			// (small accessors with an error branch too: func (vm) top() ([]byte, error))
+			for _, gb := range g.Blocks {
+				if ret, ok := gb.Instrs[len(gb.Instrs)-1].(*ssa.Return); ok {
+					for _, r := range ret.Results {
+						if mentions(r, pred, depth-1, seen) {
+							return true
+						}
 					}
 				}
 			}
